@@ -39,12 +39,15 @@ DESC_PAR = {
     "nontrivial": lambda r, before, after: True,
 }
 
-TEMPLATES_Q = ["real_ga", "real_pso", "real_de", "real_cro", "binary_ga", "ant_system", "real_iwo", "real_fa"]
+TEMPLATES_Q = ["real_ga", "real_pso", "real_de", "real_cro", "binary_ga", "ant_system", "real_iwo", "real_fa", "real_bh"]
+# templates whose randomness-dependent branches are reached only after several passes (the swarm has to collapse first)
+LONG = {"real_bh": 30}
 # parameter sets to prefer when one set per template is taken: parameters that a copy could mix up must differ
 PREFER = {"real_fa": lambda p: p["beta"] != p["gamma"]}
 # harness-built configurations (not shipped templates): diversity measures logged every iteration; a warm start whose
 # individuals carry placeholder objective values before the first evaluation
-EXTRA = [("real_ga|div", {"population_size": 24}), ("real_ga|warm", {"population_size": 12})]
+EXTRA = [("real_ga|div", {"population_size": 24}), ("real_ga|warm", {"population_size": 12}),
+         ("real_de|ctb", {"population_size": 12})]
 
 
 def run(ctx):
@@ -64,6 +67,8 @@ def run(ctx):
             continue
         seen.add(key)
         s = dict(s, pools=[1, 2, 8] if q else [1, 2, 3, 8, 16])
+        if s["template"] in LONG:
+            s["n"] = LONG[s["template"]]
         groups.append(s)
     for t, params in EXTRA:
         for seed in ([ctx.seed] if q else [ctx.seed, ctx.seed + 1, ctx.seed + 2]):
